@@ -17,7 +17,7 @@ import numpy as np
 from hypothesis import strategies as st
 
 import fuzzylite as fl
-from vlib import build, gen
+from vlib import build, gen, refmath
 
 RULE = ("cases are (engine spec incl. Linear/Function terms and output variables in antecedents, history of operations "
         "{set inputs (floats or batch), process, process twice, restart, copy and switch, edit a parameter of the "
@@ -103,6 +103,18 @@ def apply_edit(eng, spec, ed):
         if t["cls"] not in ("Constant", "Linear", "Function"):
             t["h"] = ed[3]
             eng.input_variables[vi].terms[ti].height = ed[3]
+    elif kind == "shift":  # move an input term sideways by editing its location attributes in place
+        vi, ti = ed[1] % len(spec["inputs"]), ed[2]
+        ti = ti % len(spec["inputs"][vi]["terms"])
+        t = spec["inputs"][vi]["terms"][ti]
+        if t["cls"] not in ("Constant", "Linear", "Function", "Discrete"):
+            new = refmath.translate(t, ed[3])
+            obj = eng.input_variables[vi].terms[ti]
+            attrs = [k for k in vars(obj) if k not in ("name", "height")]
+            if len(attrs) == len(new["p"]):
+                for k, v in zip(attrs, new["p"]):
+                    setattr(obj, k, float(v))
+                spec["inputs"][vi]["terms"][ti] = new
     elif kind == "weight":
         bi = ed[1] % len(spec["blocks"])
         ri = ed[2] % len(spec["blocks"][bi]["rules"])
@@ -337,6 +349,7 @@ def cases(draw, maxlen=25):
     nb, no, ni = len(spec["blocks"]), len(spec["outputs"]), len(spec["inputs"])
     edit = st.one_of(
         st.tuples(st.just("height"), st.integers(0, 3), st.integers(0, 3), st.sampled_from([0.5, 0.25, 1.0])).map(list),
+        st.tuples(st.just("shift"), st.integers(0, 3), st.integers(0, 3), st.sampled_from([0.125, -0.25, 0.5])).map(list),
         st.tuples(st.just("weight"), st.integers(0, 1), st.integers(0, 5), st.sampled_from([0.5, 0.25, 0.0, 1.0])).map(list),
         st.tuples(st.just("operator"), st.integers(0, 1), st.sampled_from(["AlgebraicProduct", "Minimum", "BoundedDifference"])).map(list),
         st.tuples(st.just("range"), st.integers(0, 1), st.sampled_from([0.5, 1.0, 8.0])).map(list),
